@@ -34,6 +34,7 @@ func runReaderProps(r *Run, prop string) {
 		bigArrayBlocks(r)
 		c03NamedTargets(r)
 		c03SlotReuse(r)
+		c03HugeSchema(r)
 	} else {
 		c04Aliases(r)
 		c04WrapperSkips(r)
